@@ -229,6 +229,12 @@ static int filter_assembly_str_fsa(const char unfiltered_str[],
     }
     i++;
   }
+  // blanks behind a line that fills the buffer exactly are dropped like any
+  // others
+  while (filter_state != BEGIN && unfiltered_str[i] != '\r' &&
+         unfiltered_str[i] != '\n' && unfiltered_str[i] != '\0' &&
+         (unsigned char)unfiltered_str[i] <= '!')
+    i++;
   // the line does not fit the filter buffer (the last byte is kept for the
   // terminator): reject it rather than assemble a truncated line
   if (unfiltered_str[i] != ';' && unfiltered_str[i] != '%' &&
